@@ -333,6 +333,28 @@ impl<const N: usize> World<N> {
     }
 
     fn check_inflight_in_snapshot(&self, snap: &[u8], i: usize, except: Option<u16>) {
+        // Ring slots: an entry that is available and not completed may not have been fetched yet
+        // by a device that looks late, so its ring slot must keep naming its head for as long as
+        // the slot has not legitimately been taken by an entry N positions later. `published` is
+        // the number of entries made available before this call.
+        let published = self.cfg.start_off.wrapping_add(self.adds as u16);
+        let visible = Self::snap_idx(snap);
+        for o in &self.outs {
+            if o.completed.is_some() || o.chain.descs.is_empty() {
+                continue;
+            }
+            let age = published.wrapping_sub(o.pos) as usize;
+            // During a submission that has become visible, the slot of the entry exactly N
+            // positions back is the one being reused.
+            let reused = age == N && visible != published;
+            if age >= 1 && age <= N && !reused {
+                let slot = o.pos as usize & (N - 1);
+                let head = Self::snap_ring(snap, slot);
+                if head != o.token {
+                    viol("C02", "ring-slot-disturbed", format!("at store #{} ring slot {} of the available, not yet completed entry {} (published at index {}) reads {}; a device that has not fetched it yet would take the wrong chain", i, slot, o.token, o.pos, head));
+                }
+            }
+        }
         for o in &self.outs {
             if o.completed.is_some() || o.chain.descs.is_empty() || Some(o.token) == except {
                 continue;
